@@ -7,9 +7,11 @@
 //        ops (all numbers hex):  B.h.s.t  ~h; new(h) Array0(s,t)         N.h.g  ~h; new(h) Array0(g, givNoCopy())
 //                                C.h.g    ~h; new(h) Array0(g, givWithCopy())      D.h  h.destroy()
 //                                A.h.s allocate  R.h.s resize  V.h.s reserve  P.h.v push_back(v)
+//                                Q.h.i    if (i < h.size()) h.push_back(h[i])        (argument inside the array)
 //                                W.h.i.v  if (i < h.size()) h.write(i, v)
 //                                Y.h.g copy   L.h.g logcopy   E.h.g operator=
-//        obs = <poolleak>:<handle>|<handle>|…   handle = size.psz.cnt.share.c0,c1,…   (cnt '-' when _cnt==0,
+//        obs = <poolleak>:<handle>|<handle>|…   handle = size.psz.cnt.share.c0,c1,….kd.kc   (cnt '-' when _cnt==0,
+//              kd/kc = size-class index in the header of the data / counter block,
 //              share = lowest handle index with the same _d when psz!=0, '-' otherwise, contents '-' when empty)
 //              or X:<reason> when the harness sees a block that is referenced and on a free list, handed out twice,
 //              a null counter under a non-empty handle, or the process crashed inside the operation (X:crash)
@@ -54,10 +56,11 @@ static void* gmp_alloc(size_t n) { ++g_gmp_live; return __real_malloc(n ? n : 1)
 static void* gmp_realloc(void* p, size_t o, size_t n) {   // always moves, so that a stale limb pointer is visible to ASan
     void* q = __real_malloc(n ? n : 1);
     memcpy(q, p, o < n ? o : n);
+    memset(p, 0xDD, o);
     free(p);
     return q;
 }
-static void gmp_free(void* p, size_t) { --g_gmp_live; free(p); }
+static void gmp_free(void* p, size_t n) { --g_gmp_live; memset(p, 0xDD, n); free(p); }   // a read of released limbs yields 0xDD…DD, deterministically
 
 // ---------------------------------------------------------------------------------------------------------
 // read-only access to the private free-list table (explicit instantiation may name private members)
@@ -165,6 +168,7 @@ template <class T> static void run_hist(const vp::Args& a) {
         case 'R': H[h]->resize((size_t)f.at(1)); break;
         case 'V': H[h]->reserve((size_t)f.at(1)); break;
         case 'P': H[h]->push_back(Elt<T>::mk(f.at(1))); break;
+        case 'Q': if ((size_t)f.at(1) < H[h]->size()) H[h]->push_back((*H[h])[(size_t)f.at(1)]); break;   // the argument refers into the array
         case 'W': if ((size_t)f.at(1) < H[h]->size()) H[h]->write((size_t)f.at(1), Elt<T>::mk(f.at(2))); break;
         case 'Y': H[h]->copy(*H[f.at(1)]); break;
         case 'L': H[h]->logcopy(*H[f.at(1)]); break;
@@ -206,6 +210,9 @@ template <class T> static void run_hist(const vp::Args& a) {
             line += '.';
             if (x.size() == 0) line += '-';
             for (size_t i = 0; i < x.size(); ++i) { if (i) line += ','; line += Elt<T>::show(x[i]); }
+            // class indices stored in the headers of the data block and of the counter block
+            if (x.psz()) line += "." + vp::hex_ll(*(int*)hdr(x.dat())) + "." + vp::hex_ll(*(int*)hdr(x.cnt()));
+            else line += ".-.-";
         }
     }
     sh_set(line);
@@ -391,6 +398,7 @@ struct OpGen {
             for (int s : vs) alpha.push_back("V." + hx(h) + "." + hx(s));
             alpha.push_back("D." + hx(h));
             alpha.push_back("P." + hx(h) + "." + hx(9 + h));
+            alpha.push_back("Q." + hx(h) + ".0");
             alpha.push_back("W." + hx(h) + ".0." + hx(12 + h));
             if (full) alpha.push_back("W." + hx(h) + ".1." + hx(6 + h));
             for (int g = 0; g < nh; ++g) {
@@ -453,7 +461,8 @@ static void gen_random(std::vector<std::string>& out, const char* T, vp::Rng& R,
             case 4: l += " A." + hx(h) + "." + hx(s); break;
             case 5: case 6: l += " R." + hx(h) + "." + hx(s); break;
             case 7: l += " V." + hx(h) + "." + hx(s); break;
-            case 8: case 9: l += " P." + hx(h) + "." + hx(v); break;
+            case 8: l += " P." + hx(h) + "." + hx(v); break;
+            case 9: l += " Q." + hx(h) + "." + hx(R.below(4)); break;
             case 10: case 11: l += " W." + hx(h) + "." + hx(R.below(6)) + "." + hx(v); break;
             case 12: l += " Y." + hx(h) + "." + hx(g); break;
             case 13: case 14: l += " L." + hx(h) + "." + hx(g); break;
@@ -578,7 +587,7 @@ static std::vector<std::string> generate(const std::string& tier, uint64_t seed,
             gen_exhaustive(out, T, OpGen(2, {0, 1, 2, 5}, {0, 1, 2, 5}, {0, 5}, {2}, false), Z ? 3 : 4);
             gen_exhaustive(out, T, OpGen(2, {0, 1, 2, 5}, {0, 1, 2, 5}, {0, 1, 2, 5}, {0, 2, 5}, true), 3);
             gen_exhaustive(out, T, OpGen(3, {0, 1, 2, 5}, {0, 1, 2, 5}, {0, 2, 5}, {2}, true), 3);
-            gen_random(out, T, R, Z ? 80000 : 150000);
+            gen_random(out, T, R, Z ? 60000 : 100000);
         }
     }
     gen_fl(out, R, th);
